@@ -22,17 +22,26 @@ X == <<120>>
 Y == <<121>>
 DivTexts == CASE Alphabet = "wide" -> {None, <<>>, X, <<32>>} [] Alphabet = "narrow" -> {None, <<>>, X} [] OTHER -> {None, X}
 DivTails == CASE Alphabet = "wide" -> {None, <<>>, Y} [] OTHER -> {None, Y}
+\* {x}y is a namespaced attribute no html5lib builder writes: it is in the alphabet only under "etree-clark-raw-name"
+\* (the builder leaking a raw document name); the intended alphabet has the builder-written {xlink}href instead
 ClarkAttrs == << <<(<<LBRACE, RBRACE>> \o Y), <<49>>>>,                    \* {}y="1"
                  << <<LBRACE, 120, RBRACE>>, <<50>>>>,                      \* {x}="2"
-                 << <<LBRACE, 120, RBRACE, 121>>, <<51>>>>,                 \* {x}y="3"  (a namespaced attribute)
+                 (IF "etree-clark-raw-name" \in KnownDefects THEN << <<LBRACE, 120, RBRACE, 121>>, <<51>>>>     \* {x}y="3"
+                  ELSE << RawIn(NS_xlink, N_href), <<51>>>>),
                  << N_id, <<52>>>> >>
+\* metacharacters of the Clark / qualified-name encodings INSIDE names: "}" , "{", ":" after the first "}"
+MetaName  == <<97, RBRACE, 98, 58, LBRACE, 99, RBRACE>>                    \* a}b:{c}
+MetaAttrs == << << <<99, RBRACE, 100>>, <<49>>>>,                           \* c}d="1"
+                << RawIn(NS_xlink, <<101, RBRACE, 102>>), <<50>>>>,         \* {xlink}e}f="2"
+                << <<103, 58, LBRACE, 104, RBRACE>>, <<51>>>> >>            \* g:{h}="3"
 Kinds(par, top) ==
     {ENode("elem", RawIn(NS_html, N_div), <<>>, t, tl, None, None, par) : t \in DivTexts, tl \in DivTails}
     \cup {ENode("elem", RawIn(NS_html, N_br), <<>>, t, None, None, None, par) :
               t \in (IF Alphabet = "shape" THEN {None} ELSE {None, X})}
     \cup (IF Alphabet = "wide" THEN {ENode("elem", RawIn(NS_html, N_br), <<>>, None, Y, None, None, par)} ELSE {})
     \cup (IF Alphabet # "shape" THEN {ENode("elem", N_div, ClarkAttrs, None, None, None, None, par),
-                                      ENode("elem", <<LBRACE, RBRACE>> \o N_p, <<>>, None, None, None, None, par)}
+                                      ENode("elem", <<LBRACE, RBRACE>> \o N_p, <<>>, None, None, None, None, par),
+                                      ENode("elem", RawIn(NS_svg, MetaName), MetaAttrs, None, None, None, None, par)}
           ELSE {})
     \cup {ENode("comment", None, <<>>, <<99>>, tl, None, None, par) : tl \in (IF Alphabet = "shape" THEN {None} ELSE {None, Y})}
     \cup (IF top /\ Alphabet # "shape"
@@ -71,6 +80,9 @@ ThmPrefix  == (mode = "walk" /\ CheckProperty) => IsPrefixOf(st.out, Ref)
 ThmRefines == (Done /\ CheckProperty) => st.out = Ref
 ThmRootTailSilent == Done => (st.out = <<>> \/ st.out[Len(st.out)].t # "Characters" \/ E[start].tag = "doc"
                               \/ st.out[Len(st.out)].d # <<114>>)
+\* the builder convention: no stream carries a namespace the builder cannot have written (fails exactly when a raw
+\* document name leaks into Clark notation)
+ThmRawNames == Done => UnClark(st.out) = st.out
 ThmExplained == (Done /\ st.out # Ref) => "etree-clark-empty-part" \in EtFiredOn(E, start, KnownDefects)
 ThmExport == (Export /\ Done) =>
     PrintT(ToJson([E |-> E, start |-> start, out |-> st.out, evs |-> evs, lint |-> LintOK(st.out, KnownDefects),
